@@ -4,4 +4,5 @@ CONSTANTS
   Families = {"pairs", "atoms", "stmts", "decls"}
 INVARIANTS
   Emit
+  EmitRequired
 CHECK_DEADLOCK FALSE
